@@ -24,7 +24,8 @@ RULE = ("template-generated datagrams (reference-encoded) plus per datagram ~12 
         "byte flips, non-canonical zero-coding: split runs / wrap form / trailing lone zero, text fields with 0/2/3 NUL "
         "terminators) x 7 inspection histories (never, header-only, lazy body, header+body, body twice, body then "
         "header, eager). distinct_nontrivial = distinct (datagram, history) pairs where the body was parsed or a parse "
-        "failed")
+        "failed"
+        ". Round-5 additions: every other template visit is repeated with codec objects built on a caller-supplied template next to the stock ones; text-vs-binary scope from the harness's own naming rule")
 ASSUMPTIONS = [
     "canonical zero-coding = exactly what a maximal-run (255-split) encoder emits for the datagram's expansion",
     "datagrams whose decoded message contains a NaN float are excluded from the equality clauses",
@@ -43,7 +44,7 @@ _es = Settings()
 _es.ENABLE_DEFERRED_PACKET_PARSING = False
 _eager = UDPMessageDeserializer(settings=_es)
 
-HISTORIES = ["never", "header", "body", "header+body", "body+body", "body+header", "eager", "take>copy", "take>orig"]
+HISTORIES = ["never", "header", "body", "header+body", "body+body", "body+header", "eager", "take>copy", "take>orig", "flip", "header+flip"]
 
 
 def _has_nan(msg) -> bool:
@@ -220,6 +221,12 @@ def check_datagram(ctx, b: bytes, origin):
                         _read_header(msg)
                     else:
                         try:
+                            if op == "flip":
+                                # the ZEROCODED flag is flipped and flipped back (changing the coding needs the body parsed):
+                                # either both go through - the message is as it was - or the first one is refused
+                                msg.send_flags = int(msg.send_flags) ^ 0x80
+                                msg.send_flags = int(msg.send_flags) ^ 0x80
+                                ctx.count("hist_flag_flipped_twice")
                             msg.blocks
                             parsed = True
                         except Exception as e:
@@ -503,6 +510,9 @@ def run(ctx):
                     check_datagram(ctx, cb, {"kind": "generated", "template_config": "custom"})
                     ctx.count("datagrams_custom_template")
                 check_datagram(ctx, b, {"kind": "generated"})
+                if ti % 40 == 0:
+                    from ..custom_template import check_stock_unchanged
+                    check_stock_unchanged(ctx)
 
 
 def replay(ctx, w):
